@@ -302,12 +302,35 @@ class ModuleEval:
             if kind == "array":
                 self.union_bits(self.port_bits(iname, "*", (pname, path), width), v[path])
 
+    def final_mapping(self):
+        """{inst name: ordered {port: expr}} after replaying the operation history (or the conns lists)."""
+        out = {inst["name"]: {} for inst in self.m["insts"]}
+        hist = self.m.get("history")
+        if hist is None:
+            for inst in self.m["insts"]:
+                for pname, e in inst["conns"]:
+                    out[inst["name"]].pop(pname, None) if False else None
+                    out[inst["name"]][pname] = e  # the last connection made to a port wins
+            return out
+        for iname, pname, e, op in hist:
+            if iname not in out:
+                raise ModelError("history names unknown instance")
+            if op == "disconnect":
+                if pname not in out[iname]:
+                    raise ModelError("disconnect of unconnected port")
+                del out[iname][pname]
+            elif op == "replace":
+                if pname not in out[iname]:
+                    raise ModelError("replace of unconnected port")
+                out[iname][pname] = e
+            else:
+                out[iname][pname] = e
+        return out
+
     def evaluate(self):
+        fm = self.final_mapping()
         for inst in self.m["insts"]:
-            seen = {}
-            for pname, e in inst["conns"]:
-                seen[pname] = e  # the last connection made to a port wins
-            for pname, e in seen.items():
+            for pname, e in fm[inst["name"]].items():
                 self.connect(inst, pname, e)
         # completeness: every port connected or referenced
         for inst in self.m["insts"]:
